@@ -255,14 +255,14 @@ pub fn push_start(pb: &PieceBoardState, side: bool, step: usize, i: u8, d: Direc
 /// second half of a pull: a strictly weaker enemy steps into the square `psq` just vacated by a piece of type pt
 pub fn pull_complete(pb: &PieceBoardState, side: bool, psq: u8, pt: Piece, i: u8, d: Direction) -> bool {
     match (at(pb, i), nbr(i, d)) {
-        (Some((t, g)), Some(j)) => g != side && j == psq && strength(pt) > strength(t),
+        (Some((t, g)), Some(j)) => g != side && j == psq && at(pb, j).is_none() && strength(pt) > strength(t),
         _ => false,
     }
 }
 /// second half of a push: an unfrozen strictly stronger friend steps into the vacated square
 pub fn push_complete(pb: &PieceBoardState, side: bool, psq: u8, vt: Piece, i: u8, d: Direction) -> bool {
     match (at(pb, i), nbr(i, d)) {
-        (Some((t, g)), Some(j)) => g == side && j == psq && strength(t) > strength(vt) && !frozen(pb, i),
+        (Some((t, g)), Some(j)) => g == side && j == psq && at(pb, j).is_none() && strength(t) > strength(vt) && !frozen(pb, i),
         _ => false,
     }
 }
